@@ -13,6 +13,8 @@ sys.path.insert(0, HERE)
 import weave  # noqa
 
 REPO = os.environ.get('UFLOW_REPO', '/repo')
+# self-test runs (tools/selftest.py) must not overwrite the evidence of the real tree
+OUTDIR = VERIF if not os.environ.get('VERIF_NO_EVIDENCE') else os.path.join('/var/tmp', 'uflow-selftest-out')
 
 VERIFICATION_MSGS = [
     'postcondition not satisfied', 'precondition not satisfied', 'assertion failed',
@@ -260,14 +262,25 @@ class Run:
                     incone = mod in item_mods or mod in conenames or mod.startswith('vlib')
                 elif fb.get('mode:') == 'exec':
                     incone = mod in conenames and (rest in conenames[mod] or rest.split('::')[-1] in conenames[mod])
-                if whole and fb.get('mode:') in ('exec', 'proof'): incone = True
                 if not incone: continue
                 nobl += 1
                 self.obligations.append({'name': f"{mod}::{rest}", 'engine': 'verus/z3', 'ok': bool(fb['success']),
                                          'ms': round(fb['time-micros'] / 1000, 2), 'mode': fb.get('mode:')})
         for f in fails:
-            if self.prop in f['props'] or (whole and not f['props']):
+            if self.prop in f['props']:
                 self.failures.append({'engine': 'verus', **f})
+        if whole:
+            # stability cross-check: same crate, different Z3 seed; a disagreement is UNDECIDED, not a violation
+            seed2 = (self.seed or 0) + 7
+            res2, diags2, ms2, _ = self.run_verus(modules, whole=True, seed=seed2)
+            vf2, other2, und2 = self.classify(diags2)
+            if other2 or und2:
+                raise Undecided('stability run (seed %d) hit a front-end error or resource limit' % seed2)
+            k1 = sorted(set(f['key'] for f in fails))
+            k2 = sorted(set(k['key'] for k in (self.attribute(d) for d in vf2) if 'canary_must_fail' not in k['fn'] and 'canary_must_fail' not in k['rendered']))
+            if k1 != k2:
+                raise Undecided(f'stability run disagrees: seed0={k1} seed{seed2}={k2}')
+            self.extra['stability_run'] = {'seed': seed2, 'wall_ms': ms2, 'verified': res2['verification-results'].get('verified'), 'agrees': True}
         self.extra['verus'] = {
             'cmd': cmdline, 'wall_ms': ms, 'verified': res['verification-results'].get('verified'),
             'errors': res['verification-results'].get('errors'), 'modules': sorted(modules),
@@ -323,11 +336,12 @@ class Run:
             'wall_s': round(time.time() - self.t0, 2),
             'violations': len(viol),
         }
-        os.makedirs(os.path.join(VERIF, 'evidence'), exist_ok=True)
-        json.dump(ev, open(os.path.join(VERIF, 'evidence', f'{self.prop}.json'), 'w'), indent=1)
+        edir = os.path.join(OUTDIR, 'evidence')
+        os.makedirs(edir, exist_ok=True)
+        json.dump(ev, open(os.path.join(edir, f'{self.prop}.json'), 'w'), indent=1)
 
     def replay(self, viol):
-        d = os.path.join(VERIF, 'replays', self.prop)
+        d = os.path.join(OUTDIR, 'replays', self.prop)
         os.makedirs(d, exist_ok=True)
         n = len([x for x in os.listdir(d) if x.endswith('.json')]) + 1
         path = os.path.join(d, f'{n}.json')
